@@ -219,6 +219,14 @@ def _corr_dat_recorded(ctx, bh):
                  {"shape": list(H.shape), "m": H.tolist()}, key)
         ctx.count(f"corr_dat_recorded_{regime}")
         ctx.count(f"corr_dat_recorded_ref_{kind}")
+        # the excluded point of C12_dat_gram_model on the real code (observation, not a comparison): past data with
+        # dependent rows although there are enough columns -> the Gram matrix is NOT that of the projection on the past
+        # reference outputs (C12_dat_rank_needed is the exact instance); counted so that a change of behaviour shows
+        if n > a and np.linalg.matrix_rank(X[:, :a]) < a:
+            Yp_, Yf_ = X[:, :a].T, X[:, a:].T
+            Pg = Yf_ @ np.linalg.pinv(Yp_) @ Yp_ @ Yf_.T
+            gap = float(np.abs(H @ H.T - Pg).max()) / max(float(np.abs(Pg).max()), 1e-300)
+            ctx.count("observed_dat_rank_deficient_past_" + ("gram_is_not_projection" if gap > 1e-6 else "gram_is_projection"))
         # (iv) short records: Gram matrix of the future outputs themselves, no rank condition
         if n <= a:
             FF = G[a:, a:]
